@@ -26,6 +26,11 @@ def arg_roots(f, op):
     return out
 
 
+def workspace_helpers11(P):
+    from .common import workspace_helpers_of
+    return [P.fns[x] for x in workspace_helpers_of(P, 'rip_workspace::Workspace::apply_patch') if x in P.fns]
+
+
 def run(ctx):
     P = ctx.prog
     ctx.not_decided = 'hunk placement semantics, CRLF/LF and trailing-newline preservation, exactness of the success result (value level).'
@@ -306,3 +311,48 @@ def run(ctx):
             ctx.ob('C12.10', g, 'dedup-after-sort:' + s_.name, bool(so), '%s %s' % (s_.name, 'follows a sort of the same vector' if so else
                    'WITHOUT a preceding sort of that vector: only adjacent duplicates are merged, a path named by non-adjacent operations is listed more than once'), line=s_.line)
     ctx.floor('C12.10', 'dedup sites in the workspace crates', n10, 2)
+
+    # ---------------------------------------------------------------- C12.11
+    ctx.rule('C12.11', 'an update that edits nothing is either refused by the parser or applied without touching the bytes: the applier rewrites every updated file through split-lines / '
+             'apply-hunks / join-lines, which is the identity only for uniform line endings — so EITHER the emptiness test of the hunk list in the parser has no true edge that reaches the '
+             'construction of PatchOp::UpdateFile (zero-hunk sections are refused whatever else they carry), OR the UpdateFile arm of the applier branches on the emptiness of the hunks itself. '
+             'A parser that lets `Update File` + `Move to` through without hunks, with the applier unchanged, moves a file with mixed line endings to different bytes.')
+    from ..inline import inline_calls as _inl11
+    reach11 = []
+    nagg11 = 0
+    for p_, g0 in sorted(P.fns.items()):
+        if not p_.startswith('rip_workspace::patch') or '{closure' in p_:
+            continue
+        g = _inl11(P, g0, lambda body, callee: callee.startswith('rip_workspace::patch::') and not callee.endswith('::parse_rel_path'), depth=2)
+        for (bi, si, st) in g.aggregates(r'rip_workspace::patch::PatchOp$'):
+            rv = st['rv']
+            if rv.get('variant') != 'UpdateFile' or 'hunks' not in rv['fields']:
+                continue
+            nagg11 += 1
+            hop = rv['a'][rv['fields'].index('hunks')]
+            hl = g.root_local(hop)
+            hset = reads_locals(g, hop) | {hl}
+            for e_ in g.calls(r'Vec::<T, A>::is_empty$|<impl \[T\]>::is_empty$'):
+                if not e_.args or g.root_local(e_.args[0], through_calls=(r'::deref$', r'::as_slice$')) not in hset:
+                    continue
+                sw = g.switch_on_call(e_)
+                if sw is None:
+                    continue
+                bb_, ts_, els_, neg_ = sw
+                true_t = ts_.get('0') if neg_ else els_
+                if true_t is not None and (true_t == bi or g.can_reach(true_t, bi)):
+                    reach11.append((g, e_))
+    ctx.floor('C12.11', 'constructions of PatchOp::UpdateFile in the parser', nagg11, 1)
+    applier11 = False
+    for g in workspace_helpers11(P):
+        for e_ in g.calls(r'Vec::<T, A>::is_empty$|<impl \[T\]>::is_empty$'):
+            o_ = g.origin(e_.args[0], through_calls=(r'::deref$', r'::as_slice$')) if e_.args else ('?',)
+            if o_[0] == 'local' and any(isinstance(pp, dict) and pp.get('n') == 'hunks' for pp in o_[2]):
+                applier11 = True
+            elif e_.args and g.lname(g.root_local(e_.args[0], through_calls=(r'::deref$', r'::as_slice$')) or 0) == 'hunks':
+                applier11 = True
+    ok11 = not reach11 or applier11
+    ctx.ob('C12.11', reach11[0][0] if reach11 else 'rip_workspace::patch', 'zero-hunk-update-refused-or-byte-exact', ok11,
+           ('zero-hunk updates are refused by the parser on every path' if not reach11 else 'the parser lets a zero-hunk update through, and the applier branches on the emptiness of the hunks') if ok11 else
+           'the parser lets an `Update File` section WITHOUT hunks reach PatchOp::UpdateFile (the emptiness test has a true edge to it), and the applier has no branch for it: the file is rewritten through split / join lines',
+           line=reach11[0][1].line if reach11 else 0)
